@@ -10,6 +10,7 @@ import (
 	"github.com/zishang520/engine.io-go-parser/packet"
 	"github.com/zishang520/engine.io/v2/log"
 	"github.com/zishang520/engine.io/v2/types"
+	"github.com/zishang520/engine.io/v2/verifhook"
 )
 
 var ws_log = log.NewLog("engine:ws")
@@ -128,6 +129,9 @@ func (w *websocket) Send(packets []*packet.Packet) {
 	go w.send(packets)
 }
 func (w *websocket) send(packets []*packet.Packet) {
+	if verifhook.Enabled {
+		verifhook.Point("ws.send.start", w, packets)
+	}
 	defer func() {
 		w.Emit("drain")
 		w.SetWritable(true)
